@@ -43,6 +43,10 @@ def compare_graded(S, name, c, T, preserve_array=True):
 def oracle_for(S, name, c, T):
     """canonicalise oracle labels to the library result's label tuple (multiset must agree)"""
     target = orc.labels_of(c) if isinstance(c, sr.FermionicArray) else ()
+    for a_, b_ in zip(target, target[1:]):
+        # an adjacent conjugate label pair is a contractible bra-ket pair: the contraction must have evaluated it
+        if a_[0] == b_[0] and a_[1] != b_[1]:
+            raise Violation(name + ":labels", f"adjacent conjugate labels left unevaluated on the result: {target}")
     try:
         return graded.canon_labels(T, target)
     except graded.LabelMismatch as e:
